@@ -113,3 +113,8 @@ const (
 	maximumTTL = 12 * time.Hour
 	defaultCap = 1024 * 256
 )
+
+// MaximumLease is the ceiling on how long a delegation is used, whatever TTL
+// the parent put on it. Everything whose lifetime is bounded by a delegation
+// has to observe it too, so it is exported for the resolver's cut deadline.
+const MaximumLease = maximumTTL
